@@ -6,7 +6,7 @@ loop shape (DESIGN.md section 3, C08: rules Q1..Q10).
 import ast
 import os
 
-from ..cfg import CFG, lexical_guard, single_defs, local_defs
+from ..cfg import CFG, G, conjuncts, lexical_guard, single_defs, local_defs
 from ..consteval import Folder
 from ..report import AnalysisError, Report, VERIF
 from ..srcmodel import Source, is_self_attr, unparse
@@ -39,6 +39,39 @@ QUEUES = {
     "readers": ({"append"}, set(), set()),
 }
 READ_ONLY_METHODS = {"index", "count", "copy", "__len__", "__iter__", "__contains__", "__getitem__"}
+
+
+def keyfinder(src):
+    """The function that moves bytes from unprocessed_bytes into get_key (a closure of _send or a method of Input)
+    and the texts by which it is called."""
+    hits = []
+    for (m, qn), g in src.funcs.items():
+        if m != "input":
+            continue
+        if any(isinstance(n, ast.Call) and unparse(n.func).endswith("get_key") for n in g.own_nodes()) and \
+                any(isinstance(n, ast.Attribute) and n.attr == "unprocessed_bytes" for n in g.own_nodes()):
+            hits.append(g)
+    if len(hits) != 1:
+        raise AnalysisError("expected exactly one function feeding unprocessed_bytes to get_key, found %s" % [h.qualname for h in hits])
+    g = hits[0]
+    names = {g.name, "self." + g.name}
+    return g, names
+
+
+def _empty_edge(t, atom_text):
+    """For a CFG test node whose condition is the single truthiness/emptiness atom of `atom_text`, the kind of the
+    edge taken when it is EMPTY ('true' | 'false'), else None."""
+    cj = conjuncts(t.ast)
+    if len(cj) != 1:
+        return None
+    text, pol = cj[0]
+    if text == atom_text:
+        return "false" if pol else "true"
+    if text in ("len(%s) == 0" % atom_text, "0 == len(%s)" % atom_text):
+        return "true" if pol else "false"
+    if text == "0 < len(%s)" % atom_text:
+        return "false" if pol else "true"
+    return None
 
 
 def _queue_of(e):
@@ -161,6 +194,21 @@ def rule_q3(src, rep, counts):
             if isinstance(n, ast.Call) and isinstance(n.func, ast.Name) and n.func.id in ("sorted", "min", "max") and n.args \
                     and _queue_of(n.args[0]) == q:
                 sorts.append((f, n))
+    # a pop that sits in a small helper method is judged at the helper's call sites
+    moved = []
+    for f, n in list(pops):
+        has_sort = any(sf is f for sf, _ in sorts)
+        if f.cls is not None and f.outer is None and not has_sort and f.name not in ("_send", "send"):
+            sites = []
+            for g in src.all_funcs():
+                if g.cls is f.cls:
+                    for c in g.own_nodes():
+                        if isinstance(c, ast.Call) and unparse(c.func) == "self.%s" % f.name:
+                            sites.append((g, c))
+            if sites and not lexical_guard(f.module, n, f.node):
+                pops.remove((f, n))
+                moved.extend(sites)
+    pops.extend(moved)
     counts["scheduled_sorts"] = len(sorts)
     counts["scheduled_pops"] = len(pops)
     # elements are (when, event) tuples: the appended value's first component is the time
@@ -255,40 +303,35 @@ def rule_q4(src, rep, counts):
         for q in ("sigints", "queued_events", "queued_interrupting_events"):
             ok = False
             for t in tests:
-                if unparse(t.ast) == "self.%s" % q:
-                    fa = [s for s in t.succ if s.kind == "false"]
-                    if fa and cfg.dominates(fa[0], wn):
-                        ok = True
-                if unparse(t.ast) in ("not self.%s" % q, "len(self.%s) == 0" % q):
-                    tr = [s for s in t.succ if s.kind == "true"]
-                    if tr and cfg.dominates(tr[0], wn):
+                kind = _empty_edge(t, "self.%s" % q)
+                if kind:
+                    ed = [s for s in t.succ if s.kind == kind]
+                    if ed and cfg.dominates(ed[0], wn):
                         ok = True
             rep.ob("Q4-wait-after-queue-check", f.where(w), f.scope, "%s  [queue %s]" % (unparse(w.func), q), ok,
                    "the blocking wait is reachable without passing the empty branch of a test of self.%s: a request can "
                    "block or time out while an event of that queue is deliverable" % q)
         # find_key() tried first and was None
         ok = False
+        kf, kf_names = keyfinder(src)
         for n in cfg.nodes:
             if n.kind == "stmt" and isinstance(n.ast, ast.Assign) and isinstance(n.ast.value, ast.Call) and \
-                    unparse(n.ast.value.func) == "find_key" and isinstance(n.ast.targets[0], ast.Name):
+                    unparse(n.ast.value.func) in kf_names and isinstance(n.ast.targets[0], ast.Name):
                 var = n.ast.targets[0].id
                 if not cfg.dominates(n, wn):
                     continue
                 for t in tests:
-                    tx = unparse(t.ast)
-                    if tx == "%s is not None" % var and cfg.dominates(n, t):
-                        fa = [s for s in t.succ if s.kind == "false"]
-                        if fa and cfg.dominates(fa[0], wn) and not _reassigned_between(cfg, n, t, var):
-                            ok = True
-                    if tx == "%s is None" % var and cfg.dominates(n, t):
-                        tr = [s for s in t.succ if s.kind == "true"]
-                        if tr and cfg.dominates(tr[0], wn):
+                    cj = conjuncts(t.ast)
+                    if len(cj) == 1 and cj[0][0] == "%s is None" % var and cfg.dominates(n, t):
+                        kind = "true" if cj[0][1] else "false"
+                        ed = [s for s in t.succ if s.kind == kind]
+                        if ed and cfg.dominates(ed[0], wn):
                             ok = True
         rep.ob("Q4-wait-after-buffered-key", f.where(w), f.scope, unparse(w.func), ok,
                "the blocking wait is not dominated by `e = find_key()` followed by the `e is None` branch: bytes already "
                "buffered would wait for new input before being returned")
         # scheduled: no path from the due branch to the wait; and the scheduled queue test precedes the wait
-        sched_test = [t for t in tests if unparse(t.ast) == "self.queued_scheduled_events" and cfg.dominates(t, wn)]
+        sched_test = [t for t in tests if _empty_edge(t, "self.queued_scheduled_events") and cfg.dominates(t, wn)]
         rep.ob("Q4-wait-after-scheduled-check", f.where(w), f.scope, unparse(w.func) + " [scheduled]", bool(sched_test),
                "the wait is not dominated by a test of self.queued_scheduled_events")
         due_tests = [t for t in tests if "time.time()" in unparse(t.ast) and cfg.dominates(t, wn) is False and
@@ -319,7 +362,7 @@ def rule_q4(src, rep, counts):
                 for n in f.own_nodes():
                     if isinstance(n, (ast.Assign, ast.AnnAssign)) and getattr(n, "value", None) is plain[0]:
                         g = lexical_guard(f.module, n, f.node)
-                        ok = ok and ("self.queued_scheduled_events", False) in g
+                        ok = ok and (("self.queued_scheduled_events", False) in g or G("len(self.queued_scheduled_events) == 0") in g)
             rep.ob("Q10-timeout-passed-through", f.where(w), f.scope, "%s(%s)" % (unparse(w.func), var), ok,
                    "with nothing scheduled the wait must get the caller's timeout unchanged, otherwise min(time until the "
                    "earliest scheduled event, timeout); found definitions %s" % [unparse(d) if d is not None else "?" for d in dl])
@@ -370,11 +413,66 @@ def rule_q5(src, rep, counts):
     sel = [n for n in w.own_nodes() if isinstance(n, ast.Call) and src.canon(n.func, w.module) == "select.select"]
     if len(sel) != 1:
         raise AnalysisError("expected exactly one select.select call in _wait_for_read_ready_or_timeout, found %d" % len(sel))
-    rl = unparse(sel[0].args[0]) if sel[0].args else ""
-    for need, why in (("self.in_stream.fileno()", "input stream"), ("self.wakeup_read_fd", "signal wake-up pipe"),
-                      ("self.readers", "thread-safe trigger pipes")):
-        rep.ob("Q5-select-reads", w.where(sel[0]), w.scope, "select.select(%s, ...) includes %s" % (rl[:90], need),
-               need in rl, "select does not watch the %s: a blocked request is not woken by it" % why)
+    rl_e = sel[0].args[0] if sel[0].args else None
+    wdefs = single_defs(w.node)
+    seen = 0
+    while isinstance(rl_e, ast.Name) and rl_e.id in wdefs and seen < 4:
+        rl_e = wdefs[rl_e.id]
+        seen += 1
+    rl = unparse(rl_e) if rl_e is not None else ""
+    # augmented in steps (fds = [a]; fds += [b]; fds += self.readers): collect every piece
+    if isinstance(sel[0].args[0], ast.Name):
+        nm = sel[0].args[0].id
+        for x in w.own_nodes():
+            if isinstance(x, ast.AugAssign) and isinstance(x.target, ast.Name) and x.target.id == nm:
+                rl += " + " + unparse(x.value)
+            if isinstance(x, ast.Call) and isinstance(x.func, ast.Attribute) and x.func.attr in ("append", "extend") and \
+                    unparse(x.func.value) == nm and x.args:
+                rl += " + " + unparse(x.args[0])
+            if isinstance(x, (ast.Assign, ast.AnnAssign)) and unparse(x.targets[0] if isinstance(x, ast.Assign) else x.target) == nm and x.value is not None:
+                rl += " + " + unparse(x.value)
+    # what select watches is evaluated, not pattern-matched: the wait is abstractly interpreted with select.select stubbed
+    # (it reports nothing ready), twice, with a reader registered in between
+    from ..objinterp import Obj, NativeFunc, ObjInterp
+    from ..absint import FoldedRaise
+    from ..consteval import Record, Unknown
+    it = ObjInterp(src)
+    fold = it.folder
+    seen = []
+
+    def fake_select(args, kw):
+        seen.append((sorted(args[0]) if args else None, args[3] if len(args) > 3 else kw.get("timeout", "<none>")))
+        return ([], [], [])
+    fold.overrides["input"] = {"select": Record(select=NativeFunc(fake_select)), "time": Record(time=NativeFunc(lambda a, k: 100.0))}
+    for wake in (9, None):
+        try:
+            inp = it.new("input", "Input", in_stream=Record(fileno=NativeFunc(lambda a, k: 7)))
+        except (FoldedRaise, Unknown) as e:
+            fold.overrides.pop("input", None)
+            raise AnalysisError("Input.__init__ outside the evaluated subset: %s" % e)
+        inp.fields.update({"wakeup_read_fd": wake, "wakeup_write_fd": 10 if wake else None})
+        inp.fields["readers"].extend([11, 12])
+        del seen[:]
+        try:
+            r1 = fold._inline(w, [0.25], {}, self_obj=inp)
+            inp.fields["readers"].append(13)
+            r2 = fold._inline(w, [None], {}, self_obj=inp)
+        except FoldedRaise as e:
+            r1 = r2 = ("raise", e.name)
+        except Unknown as e:
+            fold.overrides.pop("input", None)
+            raise AnalysisError("_wait_for_read_ready_or_timeout outside the evaluated subset: %s" % e)
+        if r1 == ("raise", "AttributeError"):
+            fold.overrides.pop("input", None)
+            raise AnalysisError("the wait needs state that only __enter__ sets up and that this model does not know")
+        base = [7] + ([wake] if wake else [])
+        want = [(sorted(base + [11, 12]), 0.25), (sorted(base + [11, 12, 13]), None)]
+        rep.ob("Q5-select-reads", w.where(sel[0]), w.scope, "wake-up fd %s: select watched %s" % (wake, seen), seen == want and r1 == (False, None) and r2 == (False, None),
+               "at every wait select must watch the input stream, the signal wake-up pipe when set, and every CURRENTLY registered "
+               "trigger pipe, with the caller's timeout; expected %s, observed %s (results %s, %s): a blocked request is not woken by what is missing"
+               % (want, seen, r1, r2), witness={"expected": str(want), "observed": str(seen)})
+        rep.case(True)
+    fold.overrides.pop("input", None)
     rep.ob("Q5-select-timeout-arg", w.where(sel[0]), w.scope, unparse(sel[0])[:120],
            len(sel[0].args) == 4 and isinstance(sel[0].args[3], ast.Name),
            "select must be given the remaining timeout")
@@ -466,118 +564,173 @@ def _byte_split_gen(e, src_name=None):
 
 
 def rule_q8(src, rep, counts):
+    """_nonblocking_read is abstractly interpreted with os.read stubbed: every byte read is appended, one element per byte,
+    in order, after what is already buffered; the count returned is the number of bytes; nothing is buffered when the
+    read would block or returns nothing.  (unget_bytes is covered by K7's Q8-unget rule.)"""
+    from ..objinterp import Obj, NativeFunc, ObjInterp
+    from ..absint import FoldedRaise
+    from ..consteval import Record, Unknown
+    it = ObjInterp(src)
+    fold = it.folder
+    f = src.func("input", "Input._nonblocking_read")
+    read_size = fold.const("input", "READ_SIZE", int)
     n = 0
-    for qn in ("Input.unget_bytes", "Input._nonblocking_read"):
-        f = src.func("input", qn)
-        exts = [c for c in f.own_nodes() if isinstance(c, ast.Call) and isinstance(c.func, ast.Attribute) and
-                c.func.attr in ("extend", "append") and _queue_of(c.func.value) == "unprocessed_bytes"]
-        if not exts:
-            rep.ob("Q8-bytes-enter-buffer", f.where(), f.scope, qn, False, "%s no longer adds bytes to unprocessed_bytes" % qn)
-            continue
-        for c in exts:
-            n += 1
-            x = _byte_split_gen(c.args[0]) if c.args and c.func.attr == "extend" else None
-            rep.ob("Q8-bytes-enter-buffer", f.where(c), f.scope, unparse(c), x is not None,
-                   "bytes must enter the buffer one by one, all of them, in order: extend(X[i:i+1] for i in range(len(X)))")
-            if x is None:
-                continue
-            if qn.endswith("unget_bytes"):
-                rep.ob("Q8-buffered-data-is-the-input", f.where(c), f.scope, "source of the bytes: %s" % x,
-                       x in f.params(), "unget_bytes must buffer its argument")
-            else:
-                reads = [a for a in f.own_nodes() if isinstance(a, ast.Assign) and isinstance(a.value, ast.Call) and
-                         src.canon(a.value.func, f.module) == "os.read" and unparse(a.targets[0]) == x]
-                ok = len(reads) == 1
-                if ok:
-                    rd = reads[0].value
-                    ok = len(rd.args) == 2 and unparse(rd.args[0]) == "self.in_stream.fileno()" and unparse(rd.args[1]) == "READ_SIZE"
-                rep.ob("Q8-buffered-data-is-the-input", f.where(c), f.scope, "source of the bytes: %s = os.read(...)" % x, ok,
-                       "_nonblocking_read must buffer exactly what one os.read(self.in_stream.fileno(), READ_SIZE) returned")
-                rets = [r for r in f.own_nodes() if isinstance(r, ast.Return)]
-                g_ext = lexical_guard(f.module, c, f.node)
-                same = [r for r in rets if lexical_guard(f.module, r, f.node) == g_ext and
-                        not isinstance(f.module.parent.get(r), ast.ExceptHandler)]
-                ok = any(unparse(r.value) == "len(%s)" % x for r in same)
-                rep.ob("Q8-read-count-returned", f.where(c), f.scope, "return len(%s)" % x, ok,
-                       "_nonblocking_read must return the number of bytes it buffered (the paste decision depends on it)")
-    counts["buffer_fill_sites"] = n
+    for label, behaviour, want_buf, want_ret in (
+            ("3 bytes", b"ab\xc3", [b"x", b"a", b"b", b"\xc3"], 3),
+            ("1 byte", b"\x1b", [b"x", b"\x1b"], 1),
+            ("nothing (EOF / dsusp)", b"", [b"x"], 0),
+            ("would block", "BlockingIOError", [b"x"], 0)):
+        calls = []
+
+        def os_read(args, kw, behaviour=behaviour):
+            calls.append(tuple(args))
+            if isinstance(behaviour, str):
+                raise FoldedRaise(behaviour, "os.read")
+            return behaviour
+        fold.overrides["input"] = {"os": Record(read=NativeFunc(os_read), O_NONBLOCK=2048)}
+        inp = Obj("input", "Input")
+        inp.fields.update({"unprocessed_bytes": [b"x"], "in_stream": Record(fileno=NativeFunc(lambda a, k: 7))})
+        try:
+            r = ("ok", fold._inline(f, [], {}, self_obj=inp))
+        except FoldedRaise as e:
+            r = ("raise", e.name)
+        except Unknown as e:
+            raise AnalysisError("_nonblocking_read outside the evaluated subset: %s" % e)
+        finally:
+            fold.overrides.pop("input", None)
+        n += 1
+        got = inp.fields["unprocessed_bytes"]
+        ok = r == ("ok", want_ret) and got == want_buf
+        rep.ob("Q8-read-bytes-enter-buffer-in-order", f.where(), f.scope, "os.read gives %s" % label, ok,
+               "after the read the buffer must be %s and the count returned %s; got buffer %s and %s" % (want_buf, want_ret, got, r))
+        rep.case(True)
+        if calls:
+            ok = calls[0] == (7, read_size)
+            rep.ob("Q8-reads-from-the-input-stream", f.where(), f.scope, "os.read%s" % (calls[0],), ok,
+                   "the read must be os.read(self.in_stream.fileno(), READ_SIZE)")
+    counts["buffer_fill_sites"] = n + 1
+    # the read happens inside `with Nonblocking(self.in_stream)` (C12 checks that this restores the flags)
+    withs = [w for w in f.own_nodes() if isinstance(w, ast.With)]
+    ok = any(unparse(i.context_expr).startswith("Nonblocking(") for w in withs for i in w.items) and \
+        all(f.module.enclosing(c, (ast.With,)) is not None for c in f.own_nodes()
+            if isinstance(c, ast.Call) and src.canon(c.func, f.module) == "os.read")
+    rep.ob("Q8-read-inside-nonblocking-context", f.where(), f.scope, "with Nonblocking(self.in_stream): os.read(...)", ok,
+           "the read must run inside the Nonblocking context manager so that a blocked stream cannot stall a request and the "
+           "stream's flags are restored afterwards")
 
 
 def rule_k7(src, rep, counts):
-    """find_key: the byte buffer discipline shared with C03."""
-    f = None
-    for (m, qn), g in src.funcs.items():
-        if m == "input" and qn == "Input._send.find_key":
-            f = g
-    if f is None:
-        raise AnalysisError("anchor vanished: find_key nested in Input._send")
-    loops = [n for n in f.node.body if isinstance(n, ast.While)]
-    if len(loops) != 1:
-        raise AnalysisError("find_key: expected exactly one while loop")
-    lp = loops[0]
-    rep.ob("K7-loop-while-buffer-nonempty", f.where(lp), f.scope, "while %s" % unparse(lp.test),
-           unparse(lp.test) in ("self.unprocessed_bytes", "len(self.unprocessed_bytes) > 0", "len(self.unprocessed_bytes) != 0"),
-           "find_key must consume while bytes are buffered")
-    first = lp.body[0] if lp.body else None
-    ok = False
-    buf = None
-    if isinstance(first, ast.Expr) and isinstance(first.value, ast.Call) and isinstance(first.value.func, ast.Attribute) and \
-            first.value.func.attr == "append" and isinstance(first.value.func.value, ast.Name) and len(first.value.args) == 1:
-        a = first.value.args[0]
-        buf = first.value.func.value.id
-        ok = isinstance(a, ast.Call) and isinstance(a.func, ast.Attribute) and a.func.attr in ("pop", "popleft") and \
-            _queue_of(a.func.value) == "unprocessed_bytes" and \
-            ((a.func.attr == "pop" and len(a.args) == 1 and isinstance(a.args[0], ast.Constant) and a.args[0].value == 0) or
-             (a.func.attr == "popleft" and not a.args))
-    rep.ob("K7-byte-moves-head-to-tail", f.where(first) if first else f.where(lp), f.scope,
-           unparse(first) if first else "<empty loop>", ok,
-           "each iteration must move exactly the oldest buffered byte to the end of the current key's bytes in one statement")
-    if not ok:
-        return
-    binit = [n for n in f.node.body if isinstance(n, (ast.Assign, ast.AnnAssign)) and unparse(n.targets[0] if isinstance(n, ast.Assign) else n.target) == buf]
-    rep.ob("K7-current-bytes-fresh", f.where(binit[0]) if binit else f.where(), f.scope, unparse(binit[0]) if binit else buf,
-           len(binit) == 1 and isinstance(binit[0].value, ast.List) and not binit[0].value.elts and
-           f.node.body.index(binit[0]) < f.node.body.index(lp),
-           "the current key's byte list must start empty for every find_key call")
-    gk = [n for n in ast.walk(lp) if isinstance(n, ast.Call) and unparse(n.func).endswith("get_key")]
-    if len(gk) != 1:
-        raise AnalysisError("find_key: expected one get_key call in the loop")
-    g = gk[0]
-    ok = bool(g.args) and unparse(g.args[0]) == buf
-    rep.ob("K7-get_key-sees-current-bytes", f.where(g), f.scope, unparse(g)[:100], ok, "get_key must be given the current key's bytes")
-    kws = {k.arg: k.value for k in g.keywords}
-    full = kws.get("full")
-    fulltxt = unparse(full) if full is not None else "<missing>"
-    ok = fulltxt in ("len(self.unprocessed_bytes) == 0", "not self.unprocessed_bytes", "0 == len(self.unprocessed_bytes)",
-                     "not len(self.unprocessed_bytes)")
-    stmt_idx = [i for i, s in enumerate(lp.body) if any(x is g for x in ast.walk(s))]
-    after_pop = bool(stmt_idx) and stmt_idx[0] > 0
-    rep.ob("K7-full-means-buffer-exhausted", f.where(g), f.scope, "full=%s" % fulltxt, ok and after_pop,
-           "full= must be an emptiness test of the same byte buffer evaluated after the pop: otherwise a lone ESC at the end "
-           "of a read is never reported, or a sequence that arrived whole is broken up")
-    kn = kws.get("keynames")
-    rep.ob("K7-keynames-passed", f.where(g), f.scope, "keynames=%s" % (unparse(kn) if kn is not None else "<missing>"),
-           kn is not None and unparse(kn) == "self.keynames", "the Input's naming mode must be passed to get_key")
-    # result handling
-    asg = [s for s in lp.body if isinstance(s, ast.Assign) and s.value is g and isinstance(s.targets[0], ast.Name)]
-    ok = False
-    if asg:
-        var = asg[0].targets[0].id
-        for s in lp.body[lp.body.index(asg[0]) + 1:]:
-            if isinstance(s, ast.If) and unparse(s.test) == "%s is not None" % var and len(s.body) == 1 and \
-                    isinstance(s.body[0], ast.Return) and unparse(s.body[0].value) == var:
-                ok = True
-    rep.ob("K7-key-ends-the-loop", f.where(lp), f.scope, "if e is not None: return e", ok,
-           "a recognised key must be returned at once (not merged with following bytes, not dropped)")
-    tail = f.node.body[f.node.body.index(lp) + 1:]
-    ok = any(isinstance(s, ast.If) and unparse(s.test) == buf and any(isinstance(x, ast.Raise) for x in s.body) for s in tail)
-    rep.ob("K7-leftover-raises", f.where(tail[0]) if tail else f.where(), f.scope, "if %s: raise ..." % buf, ok,
-           "bytes consumed without producing a key must raise, never be silently dropped")
+    """The key finder (closure of _send or method of Input) is abstractly interpreted on byte buffers derived from the key
+    tables: it must return the first keypress of the reference segmentation and leave exactly the remaining bytes, in
+    order, in the buffer; `full` must mean 'buffer exhausted'; unget_bytes appends at the tail."""
+    from ..keymodel import KeyModel
+    from ..objinterp import Obj
+    from ..absint import LocalFunc, FoldedRaise
+    from ..consteval import Unknown
+    km = KeyModel(src)
+    it = km.it
+    fold = it.folder
+    kf, _ = keyfinder(src)
+    enc_box = {"enc": "utf8"}
+    fold.stubs[("input", "getpreferredencoding")] = lambda args, kw: enc_box["enc"]
+
+    def run_finder(buf, mode="CURTSIES"):
+        inp = Obj("input", "Input")
+        inp.fields.update({"unprocessed_bytes": [bytes([b]) for b in buf], "keynames": km.modes[mode], "paste_threshold": None,
+                           "sigints": [], "queued_events": [], "queued_interrupting_events": [], "queued_scheduled_events": [], "readers": []})
+        try:
+            if kf.outer is not None:
+                env = dict(fold.module("input"))
+                env["self"] = inp
+                r = fold.v_call(LocalFunc(kf.node, env), [], {}, None, {})
+            else:
+                r = fold._inline(kf, [], {}, self_obj=inp)
+            res = ("ok", r)
+        except FoldedRaise as e:
+            res = ("raise", e.name)
+        except Unknown as e:
+            raise AnalysisError("key finder %s outside the evaluated subset: %s" % (kf.qualname, e))
+        return res, b"".join(inp.fields["unprocessed_bytes"])
+
+    def reference(buf, enc):
+        """(kind, name, consumed) by the reference segmentation fed byte by byte; kind in name/raise/dontcare"""
+        cur = b""
+        for i in range(len(buf)):
+            cur = buf[:i + 1]
+            full = i + 1 == len(buf)
+            e = km.expected(cur, enc, full)
+            if e[0] == "none":
+                continue
+            if e[0] == "dontcare":
+                return ("dontcare", None, i + 1)
+            if e[0] == "name":
+                return ("name", km.expected_name(cur, enc, "CURTSIES"), i + 1)
+            return ("raise", None, i + 1)
+        return ("raise" if buf else "none", None, len(buf))
+
+    keys = sorted(km.keys, key=lambda k: (len(k), k))
+    sample_keys = [k for k in keys if len(k) > 1][::7] + [b"\x1b", b"a", b"\x7f", b"\t", b" "]
+    bufs = []
+    for k in sample_keys:
+        bufs += [k, k + b"a", k + b"\x1b", k + k]
+    bufs += [b"\x1b[", b"\x1b[1", b"\x1b[1;", b"\x1bO", b"ab", b"\xc3\xa9x", b"\xe2\x82\xacy", b"\xf0\x9f\x98\x80", b"\xc3", b"\xe2\x82",
+             b"a\xc3\xa9", b"\x1b\x1b[A", b"\x1b\x1b", b"\x1b[1;10A~", b""]
+    n = bad = 0
+    for enc in ("utf8", "ascii", "latin-1"):
+        enc_box["enc"] = enc
+        for buf in bufs:
+            kind, name, used = reference(buf, enc)
+            if kind == "dontcare":
+                continue
+            (res, left) = run_finder(buf)
+            n += 1
+            rep.case(kind == "name")
+            if kind == "name":
+                ok = res == ("ok", name) and left == buf[used:]
+            elif kind == "none":
+                ok = res == ("ok", None) and left == b""
+            else:
+                ok = res[0] == "raise"
+            if not ok:
+                bad += 1
+                if bad <= 3:
+                    rep.ob("K7-finder-returns-first-keypress-and-keeps-the-rest", kf.where(), kf.scope, "buffer %r under %s" % (buf, enc), False,
+                           "the key finder gives %s and leaves %r buffered; the reference segmentation gives %s and leaves %r: bytes are "
+                           "lost, duplicated, reordered, or a keypress is cut at the wrong place"
+                           % (res, left, ("key %r" % name) if kind == "name" else kind, buf[used:] if kind == "name" else b""),
+                           witness={"buffer": repr(buf), "encoding": enc})
+    if not bad:
+        rep.ob("K7-finder-returns-first-keypress-and-keeps-the-rest", kf.where(), kf.scope, "%d (buffer, encoding) cases" % n, True)
+    counts["finder_cases"] = n
+    # naming mode is passed through
+    enc_box["enc"] = "utf8"
+    r, left = run_finder(b"\x1b[Ax", "BYTES")
+    rep.ob("K7-keynames-passed", kf.where(), kf.scope, "BYTES naming", r == ("ok", b"\x1b[A") and left == b"x",
+           "with bytes naming the finder must return the raw bytes of the keypress; got %s, left %r" % (r, left))
+    r, left = run_finder(b"\x1b[A", "CURSES")
+    rep.ob("K7-keynames-passed", kf.where(), kf.scope, "CURSES naming", r == ("ok", "KEY_UP"), "with curses naming got %s" % (r,))
+    # unget_bytes appends at the tail, one byte per element, in order
+    ug = src.func("input", "Input.unget_bytes")
+    inp = Obj("input", "Input")
+    inp.fields["unprocessed_bytes"] = [b"x", b"y"]
+    try:
+        fold._inline(ug, [b"ab\xc3"], {}, self_obj=inp)
+        got = inp.fields["unprocessed_bytes"]
+    except FoldedRaise as e:
+        got = "raises %s" % e.name
+    except Unknown as e:
+        raise AnalysisError("unget_bytes outside the evaluated subset: %s" % e)
+    rep.ob("Q8-unget-appends-bytes-in-order", ug.where(), ug.scope, "buffer [x, y] + unget_bytes(b'ab\\xc3')",
+           got == [b"x", b"y", b"a", b"b", b"\xc3"],
+           "unget_bytes must append its bytes one by one, in order, AFTER what is already buffered; the buffer becomes %s" % (got,))
+    fold.stubs.pop(("input", "getpreferredencoding"), None)
 
 
 def rule_q6(src, rep, counts):
     f = src.func("input", "Input._send")
-    fold = Folder(src)
+    from ..fold import new_folder
+    fold = new_folder(src)
+    kf, kf_names = keyfinder(src)
     maxk = fold.const("events", "MAX_KEYPRESS_SIZE", int)
     read_size = fold.const("input", "READ_SIZE", int)
     rep.extracted["MAX_KEYPRESS_SIZE"] = maxk
@@ -592,7 +745,7 @@ def rule_q6(src, rep, counts):
     g = lexical_guard(f.module, pastes[0], f.node)
     # num_bytes is what the read returned
     nb = single_defs(f.node)
-    want = {("self.paste_threshold is not None", True)}
+    want = {G("self.paste_threshold is not None")}
     cmp_ok = False
     for t, pol in g:
         if not pol:
@@ -601,9 +754,10 @@ def rule_q6(src, rep, counts):
             e = ast.parse(t, mode="eval").body
         except SyntaxError:
             continue
-        if isinstance(e, ast.Compare) and len(e.ops) == 1 and isinstance(e.ops[0], ast.Gt) and \
-                unparse(e.comparators[0]) == "self.paste_threshold" and isinstance(e.left, ast.Name):
-            d = nb.get(e.left.id)
+        # canonical form of `num_bytes > self.paste_threshold` is `self.paste_threshold < num_bytes`
+        if isinstance(e, ast.Compare) and len(e.ops) == 1 and isinstance(e.ops[0], ast.Lt) and \
+                unparse(e.left) == "self.paste_threshold" and isinstance(e.comparators[0], ast.Name):
+            d = nb.get(e.comparators[0].id)
             if d is not None and isinstance(d, ast.Call) and unparse(d.func) == "self._nonblocking_read":
                 cmp_ok = True
     rep.ob("Q6-paste-threshold-test", f.where(pastes[0]), f.scope, " and ".join(("" if p else "not ") + t for t, p in g),
@@ -620,17 +774,30 @@ def rule_q6(src, rep, counts):
     for i, s in enumerate(body):
         if isinstance(s, ast.If) and any(isinstance(x, ast.Call) and unparse(x.func) == "self._nonblocking_read" for x in ast.walk(s)):
             refill = (i, s)
-    fk = [i for i, s in enumerate(body) if isinstance(s, ast.Assign) and isinstance(s.value, ast.Call) and unparse(s.value.func) == "find_key"]
+    fk = [i for i, s in enumerate(body) if isinstance(s, ast.Assign) and isinstance(s.value, ast.Call) and unparse(s.value.func) in kf_names]
     ok = False
     why = "the paste loop has no refill of the byte buffer before find_key()"
     if refill and fk and refill[0] < fk[0]:
         t = refill[1].test
         why = "refill test is `%s`" % unparse(t)
-        if isinstance(t, ast.Compare) and len(t.ops) == 1 and unparse(t.left) == "len(self.unprocessed_bytes)":
-            k = fold.try_expr(t.comparators[0], dict(fold.module("input")))
-            if isinstance(k, int):
-                bound = k if isinstance(t.ops[0], ast.Lt) else k + 1 if isinstance(t.ops[0], ast.LtE) else None
-                ok = bound is not None and bound >= maxk
+        cj = conjuncts(t)
+        if len(cj) == 1:
+            try:
+                e = ast.parse(cj[0][0], mode="eval").body
+            except SyntaxError:
+                e = None
+            L = "len(self.unprocessed_bytes)"
+            bound = None
+            if isinstance(e, ast.Compare) and len(e.ops) == 1 and isinstance(e.ops[0], ast.Lt):
+                lt, rt = unparse(e.left), unparse(e.comparators[0])
+                if lt == L and cj[0][1]:                       # len < K
+                    k = fold.try_expr(e.comparators[0], dict(fold.module("input")))
+                    bound = k if isinstance(k, int) else None
+                elif rt == L and not cj[0][1]:                 # not (K < len)  ==  len <= K
+                    k = fold.try_expr(e.left, dict(fold.module("input")))
+                    bound = k + 1 if isinstance(k, int) else None
+            if bound is not None:
+                ok = bound >= maxk
                 why += " (refills below %s buffered bytes; a keypress needs up to %d)" % (bound, maxk)
     rep.ob("Q6-refill-before-buffer-runs-out", f.where(refill[1]) if refill else f.where(lp), f.scope,
            unparse(refill[1].test) if refill else "<none>", ok,
@@ -642,11 +809,10 @@ def rule_q6(src, rep, counts):
         var = body[fk[0]].targets[0].id
         for s in body[fk[0] + 1:]:
             if isinstance(s, ast.If):
-                tx = unparse(s.test)
-                none_branch, some_branch = (s.body, s.orelse) if tx == "%s is None" % var else \
-                    (s.orelse, s.body) if tx == "%s is not None" % var else (None, None)
-                if none_branch is None:
+                cj = conjuncts(s.test)
+                if len(cj) != 1 or cj[0][0] != "%s is None" % var:
                     continue
+                none_branch, some_branch = (s.body, s.orelse) if cj[0][1] else (s.orelse, s.body)
                 ok_ret = any(isinstance(x, ast.Return) and unparse(x.value) == pv for x in none_branch)
                 ok_app = any(isinstance(x, ast.Expr) and unparse(x.value) == "%s.events.append(%s)" % (pv, var) for x in some_branch)
     rep.ob("Q6-paste-keys-appended-in-order", f.where(lp), f.scope, "%s.events.append(e)" % pv, ok_app,
